@@ -12,6 +12,7 @@ def npOp (build : String) : List String → String
         | none => ""
       propfail s!"panic:{build}:{entry}:{(msg.take 48).toString}"
     else if out.startsWith "CRASH" then propfail s!"crash:{build}:{entry}:{out}"
+    else if out == "HANG" then propfail s!"no-result-after-8s:{build}:{entry}"
     else if out == "ok" || out == "err" || out == "skip" then "ok"
     else "BADLINE"
   | l => if l.getLast? == some "PANIC" || l.getLast? == some "CRASH" then propfail "crash-of-the-harness-process" else "BADLINE"
